@@ -63,3 +63,14 @@ Proof. reflexivity. Qed.
 (* non-vacuity: a cut really happens *)
 Example cut_happens : udp_adjust 512 600 = (512, true) /\ udp_adjust 1232 1300 = (1232, true).
 Proof. split; reflexivity. Qed.
+
+(* ---- the stream of a TCP connection (mode tcpstall) ---- *)
+From NX Require Import FrameStream.
+(* whatever replies are written on a connection, each as one whole frame and nothing in between, a client that reads a
+   two-byte length and then that many bytes, again and again, gets back exactly those replies, in order, and is left
+   with exactly what follows the last frame *)
+Theorem C05_stream_decodes : forall ms tail,
+  Forall (fun m => 1 <= len m <= 65535) ms ->
+  read_frames (length ms) (stream ms ++ tail) = (ms, tail).
+Proof. exact frames_decode. Qed.
+Print Assumptions C05_stream_decodes.
